@@ -154,6 +154,24 @@ class ClassInfo:
         return [st.target.id for st in self.node.body
                 if isinstance(st, ast.AnnAssign) and isinstance(st.target, ast.Name)]
 
+    @property
+    def dataclass_fields(self) -> Optional[List[str]]:
+        """Field names, in order, of a @dataclass without a hand-written __init__ (None for any other class): its
+        synthesised constructor stores its arguments in these attributes."""
+        def is_dc(d) -> bool:
+            if isinstance(d, ast.Call):
+                d = d.func
+            return (isinstance(d, ast.Name) and d.id == 'dataclass') or \
+                (isinstance(d, ast.Attribute) and d.attr == 'dataclass')
+        if not any(is_dc(d) for d in self.node.decorator_list) or '__init__' in self.methods:
+            return None
+        out = []
+        for st in self.node.body:
+            if isinstance(st, ast.AnnAssign) and isinstance(st.target, ast.Name) and \
+                    'ClassVar' not in ast.unparse(st.annotation):
+                out.append(st.target.id)
+        return out
+
     def lookup(self, name: str) -> Optional[FuncInfo]:
         for c in self.mro():
             if name in c.methods:
